@@ -29,6 +29,7 @@ type Prog struct {
 	NFuncs   int
 	NFiles   int
 
+	goT     map[string]bool // lazily: functions started by go statements
 	touched map[string]bool // when non-nil, records the functions rules ask for by name (mutation sweep anchors)
 }
 
